@@ -26,6 +26,50 @@ JSON_MUTATORS_FORBIDDEN = re.compile(r"serde_json::(map::Map|value::Value).*::(r
 OVERRIDES = ["project_path", "output_path", "validation_library", "verbose", "visualize_deps", "force"]
 
 
+def check_default_sources(S, rule, only=None):
+    """GenerateConfig has two sources of defaults — `impl Default` (no configuration file) and `#[serde(default = "f")]` (file that omits the key).
+    They must agree field by field: the Default initialiser is the call f() (or both are the same literal).  Shared by C19-D3 and C04-D3."""
+    st = S.structs.get("GenerateConfig")
+    dflt = [f for f in S.fns if f.owner == "GenerateConfig" and f.name == "default" and f.body is not None and (f.trait or "").endswith("Default")]
+    if st is None or not dflt:
+        rule.bad(V(rule.id, "<anchor>", "missing:GenerateConfig-defaults", "GenerateConfig or its Default impl not found"))
+        return {}
+    init = {}
+    for e in walk_block(dflt[0].body):
+        if e.get("k") == "struct" and e["path"][-1] in ("Self", "GenerateConfig"):
+            for fe in e["fields"]:
+                init[fe["member"]] = expr_text(fe["expr"])
+    values = {}
+    for fld in st["fields"]:
+        if only and fld["name"] not in only:
+            continue
+        toks = " ".join(a["tokens"] for a in fld["attrs"] if a["path"] == ["serde"])
+        m = re.search(r'default\s*=\s*"(\w+)"', toks)
+        have = init.get(fld["name"])
+        if m:
+            fname = m.group(1)
+            g = S.fn(None, fname)
+            lit = None
+            if g is not None:
+                for x in walk_block(g.body):
+                    if x.get("k") == "lit" and x["lit"]["t"] == "str":
+                        lit = x["lit"]["v"]
+            values[fld["name"]] = lit
+            if have == "%s()" % fname:
+                rule.ok("GenerateConfig.%s: Default and serde default both use %s() = %r" % (fld["name"], fname, lit))
+            else:
+                rule.bad(V(rule.id, "GenerateConfig", "default-sources-disagree:%s" % fld["name"],
+                           "GenerateConfig.%s defaults to %s without a configuration file but to %s() when a file omits the key" % (fld["name"], have, fname)))
+        elif re.search(r"\bdefault\b", toks):
+            # plain #[serde(default)] = Default of the field type (None / false): the Default impl may say Some(false)/None — both mean "not set"
+            if have is None or re.match(r"^(None|Some\(false\)|false|Default::default\(\)|String::new\(\))$", have):
+                rule.ok("GenerateConfig.%s: unset in both sources" % fld["name"])
+            else:
+                rule.bad(V(rule.id, "GenerateConfig", "default-sources-disagree:%s" % fld["name"],
+                           "GenerateConfig.%s defaults to %s without a configuration file but to the type's Default when a file omits the key" % (fld["name"], have)))
+    return values
+
+
 def check(ctx):
     P = ctx.P
     S = ctx.S
@@ -229,6 +273,7 @@ def check(ctx):
                     r3.ok("generate flag %s: absent = None" % fld["name"])
                 elif not opt and fld.get("ty", "").strip() != "bool" and dflt:
                     r3.bad(V(r3.id, "TypegenCommands::Generate", "flag-has-clap-default:%s" % fld["name"], "flag %s carries a clap default and cannot express absence" % fld["name"]))
+    check_default_sources(S, r3)
     rg = P.fns.get("cargo_tauri_typegen::run_generate")
     if rg is None:
         r3.bad(V(r3.id, "<anchor>", "missing:run_generate", "anchor not found"))
